@@ -247,6 +247,9 @@ func verifUDP(k int, nKeys int, nAddrs int, symDst bool) {
 			verifAssert("C16.removed-once", um.entries[a.sock].removed == 1)
 		}
 	}
+	for _, t := range verifTargets {
+		verifAssert("C18.udp.every-socket-created-is-closed-in-the-end", t.closed >= 1)
+	}
 	verifAssert("C03.client-gets-nothing-unsolicited", len(client.writes) == 0)
 	verifAssert("C18.udp.no-goroutine-left", verifBlockedIn("timedCopy") == 0)
 	verifReach("C04.two-sockets", nSock == 2)
@@ -458,6 +461,9 @@ func VH_C14_shutdown_through_handle() {
 		verifAssert("C14.shutdown-handle.socket-closed", verifChanTargets[i].Closed() == 1)
 		verifAssert("C18.udp.socket-gone-after-shutdown", verifChanTargets[i].Closed() == 1)
 		verifAssert("C14.shutdown-handle.removed-once", um.entries[i].removed == 1)
+		// (the removal report is what ends the client's tunnel time and balances the NAT entry count)
+		verifAssert("C16.shutdown-handle.removed-once", um.entries[i].removed == 1)
+		verifAssert("C17.shutdown-handle.removal-reported-so-the-tunnel-ends", um.entries[i].removed == 1)
 	}
 	verifAssert("C14.shutdown-handle.no-goroutine-left", verifBlockedIn("timedCopy") == 0)
 	verifReach("C14.shutdown-handle.done", true)
@@ -665,4 +671,129 @@ func VH_C16_runt_on_association() {
 		}
 	}
 	verifReach("C16.runt.done", true)
+}
+
+// C03: every reply of a long-lived association carries a salt of its own (here 44 replies, every
+// cipher: salt sizes 16, 24 and 32)
+func VH_C03_many_replies_fresh_salts() {
+	verifResetNet()
+	ci := verifChoice("cipher", 4)
+	key := verifKey(ci, verifSecrets[0])
+	l := list.New()
+	e0 := MakeCipherEntry("id-0", key, verifSecrets[0])
+	l.PushBack(&e0)
+	cl := NewCipherList()
+	cl.Update(l)
+	h := NewPacketHandler(defaultNatTimeout, cl, &verifUDPMetrics{}, nil)
+	client := &verifPacketConn{name: "client"}
+	const n = 44
+	src := &net.UDPAddr{IP: net.IPv4(93, 184, 216, 34), Port: 4000}
+	verifReplyScript = func(i int, pc *verifPacketConn) {
+		for k := 0; k < n; k++ {
+			pc.reads = append(pc.reads, verifRead{data: []byte{byte(k)}, n: 1, addr: src})
+		}
+	}
+	client.reads = []verifRead{{data: verifPack(key, verifSocksV4([]byte{93, 184, 216, 34}, 4000, []byte("q"))), addr: verifClientAddrs[0]}}
+	h.Handle(client)
+	verifQuiesce()
+	ws := client.Writes()
+	verifAssert("C03.many-replies.all-relayed", len(ws) == n)
+	ss := key.SaltSize()
+	for i := 0; i < len(ws); i++ {
+		for j := 0; j < i; j++ {
+			verifAssert("C03.many-replies.fresh-salt-per-reply", verifFreshBytes(ws[i].data[:ss], ws[j].data[:ss]))
+		}
+	}
+	verifReach("C03.many-replies.done", true)
+}
+
+// C14: a datagram that does not authenticate, arriving from the address of a live association,
+// changes nothing about that association's deadline
+func VH_C14_junk_on_association() {
+	verifResetNet()
+	cl, specs, _ := verifMakeList(1, 1, false)
+	key := verifKey(specs[0].cipher, verifSecrets[specs[0].secret])
+	um := &verifUDPMetrics{}
+	h := NewPacketHandler(defaultNatTimeout, cl, um, nil)
+	client := &verifPacketConn{name: "client"}
+	// (lengths that differ from the valid datagrams', so the junk cannot be a replay of one)
+	junk := verifBytes("junk", []int{0, 41, 120}[verifChoice("junk-length", 3)])
+	client.reads = []verifRead{
+		{data: verifPack(key, verifSocksV4([]byte{93, 184, 216, 34}, 443, []byte("a"))), addr: verifClientAddrs[0]},
+		{data: junk, n: len(junk), addr: verifClientAddrs[0]},
+		{data: verifPack(key, verifSocksV4([]byte{93, 184, 216, 34}, 443, []byte("b"))), addr: verifClientAddrs[0]},
+	}
+	h.Handle(client)
+	verifQuiesce()
+	verifAssert("C14.junk.one-association", len(verifTargets) == 1 && len(um.entries) == 1)
+	if len(verifTargets) == 1 {
+		t := verifTargets[0]
+		// at most one deadline per forwarded datagram, then the shutdown's: the junk set none, and
+		// before the shutdown the deadline never moved earlier
+		verifAssert("C14.junk.both-valid-datagrams-forwarded", len(t.writes) == 2)
+		verifAssert("C14.junk.sets-no-deadline", len(t.deadlines) >= 2 && len(t.deadlines) <= 3)
+		for i := 1; i+1 < len(t.deadlines); i++ {
+			verifAssert("C14.junk.deadline-never-earlier", !t.deadlines[i].Before(t.deadlines[i-1]))
+		}
+	}
+	verifReach("C14.junk.done", true)
+}
+
+// C04 / C14: the client's next datagram arrives while its expired association is being torn down
+// (between the end of the relay loop and the removal of the entry): afterwards every association
+// that has not been reported removed still has its socket open, and the client has at most one
+func VH_C04_datagram_during_teardown() {
+	verifResetNet()
+	verifTargetBlocking = true
+	verifChanTargets = nil
+	defer func() { verifTargetBlocking = false }()
+	cl, specs, _ := verifMakeList(1, 1, false)
+	key := verifKey(specs[0].cipher, verifSecrets[specs[0].secret])
+	um := &verifUDPMetrics{}
+	h := NewPacketHandler(defaultNatTimeout, cl, um, nil)
+	client := &verifChanPC{in: make(chan verifRead), closedCh: make(chan struct{}), local: &net.UDPAddr{IP: net.IPv4(192, 0, 2, 1), Port: 9}}
+	done := make(chan struct{})
+	go func() { h.Handle(client); close(done) }()
+	send := func(b byte) {
+		verifInject(client, verifPack(key, verifSocksV4([]byte{93, 184, 216, 34}, 443, []byte{b})), verifClientAddrs[0])
+		verifQuiesce()
+	}
+	during := 0
+	um.onAdd = func(cm *verifUDPConnMetrics) {
+		if len(um.entries) == 1 {
+			cm.onRemove = func() {
+				during++
+				// arrives right now; the junk datagram from elsewhere that follows is taken by
+				// the handler only once it is done with this one
+				verifInject(client, verifPack(key, verifSocksV4([]byte{93, 184, 216, 34}, 443, []byte{'2'})), verifClientAddrs[0])
+				verifInject(client, []byte("junk from somebody else, no key fits this"), verifClientAddrs[2])
+			}
+		}
+	}
+	send('1')
+	verifAssert("C04.teardown.first-association", len(verifChanTargets) == 1)
+	verifChanTargets[0].Expire() // its deadline passes
+	verifQuiesce()
+	verifAssert("C04.teardown.datagram-arrived-during-the-teardown", during == 1)
+	send('3')
+	live := 0
+	for i, cm := range um.entries {
+		if cm.removed == 0 {
+			live++
+			verifAssert("C04.teardown.live-association-keeps-its-socket", i < len(verifChanTargets) && verifChanTargets[i].Closed() == 0)
+		} else {
+			verifAssert("C14.teardown.removed-association-socket-closed", i < len(verifChanTargets) && verifChanTargets[i].Closed() == 1)
+		}
+	}
+	verifAssert("C04.teardown.at-most-one-live-association-per-client", live <= 1)
+	// the last datagram left on the live association's socket
+	if live == 1 {
+		last := verifChanTargets[len(verifChanTargets)-1].Written()
+		verifAssert("C04.teardown.latest-datagram-on-the-live-socket", len(last) >= 1 && last[len(last)-1].data[0] == '3')
+	}
+	client.Close()
+	verifQuiesce()
+	_, stillRunning := <-done
+	verifAssert("C04.teardown.handle-returned", !stillRunning && verifBlockedIn("timedCopy") == 0)
+	verifReach("C04.teardown.done", true)
 }
